@@ -11,12 +11,12 @@
 //! Output lines (tab separated, strings escaped with hxlib::runner::esc):
 //!   P  prog class source
 //!   S  prog sched                 (a run starts; if the process dies the last S names the run)
-//!   R  prog sched class output value detail collections nested_losses pending_seen exposure running_closure_losses
+//!   R  prog sched class output value detail collections nested_losses pending_seen exposure running_closure_losses only_frame_rooted stale_register_ptrs cache_ptrs
 //!   X  prog sched coll signature detail
 //!   D  prog sched coll depth,ip,op  <Coq gcq term>  <Coq observation term>
 #[cfg(vbxq_aelys_lang_verif)]
 mod imp {
-    use aelys_runtime::verif::{self, AuditFn, AuditFrame, AuditObj};
+    use aelys_runtime::verif::{self, AuditFn, AuditFrame, AuditObj, AuditVmState};
     use aelys_runtime::VM;
     use hxlib::runner::*;
     use hxlib::*;
@@ -292,6 +292,7 @@ mod imp {
         objs: Vec<AuditObj>,
         roots: Vec<usize>,
         frames: Vec<AuditFrame>,
+        vmst: AuditVmState,
         free: Vec<usize>,
         nslots: usize,
         site: (usize, usize, u8),
@@ -304,6 +305,9 @@ mod imp {
         pub collections: u64,
         pub nested_losses: u64, // objects reachable only through nested-function constants that were freed
         pub pending_seen: u64,  // collections that ran while MakeClosure held an unrooted function (must stay 0)
+        pub only_frame_rooted: u64, // collections at which a running function/closure was reachable from its frame only
+        pub stale_register_ptrs: u64, // pointer-valued registers above every frame window, summed over collections
+        pub cache_ptrs: u64,          // pointer values in the layout snapshots before collections, summed
         pub running_closure_losses: u64, // collections that freed the closure object a live frame runs (or what only it reaches)
         pub tag: String,
         pub exposure: u64, // collections at which some live function had heap pointers among its nested functions' constants
@@ -410,6 +414,7 @@ mod imp {
                     objs: vm.verif_heap_audit(),
                     roots: vm.verif_roots(),
                     frames: vm.verif_frames(),
+                    vmst: vm.verif_vm_state(),
                     free,
                     nslots,
                     site: vm.verif_safepoint_site(),
@@ -453,6 +458,29 @@ mod imp {
             let mut audit_roots = fn_roots.clone();
             audit_roots.extend(pre.frames.iter().filter_map(|f| f.closure));
             let reach_model = closure_from(&pre_map, &pre.roots, true); // what the Coq model is asked about
+            // roots that are not frame functions/closures: registers, globals, upvalue lists
+            let mut non_frame_roots: Vec<usize> = pre.vmst.globals.clone();
+            non_frame_roots.extend(pre.vmst.globals_by_index.iter().flatten());
+            non_frame_roots.extend(pre.vmst.open_upvalues.iter());
+            non_frame_roots.extend(pre.vmst.current_upvalues.iter());
+            for (base, n, _, _) in &pre.vmst.frames {
+                for k in *base..(*base + *n).min(pre.vmst.registers.len()) {
+                    if let Some(p) = pre.vmst.registers[k] {
+                        non_frame_roots.push(p);
+                    }
+                }
+            }
+            let reach_nf = closure_from(&pre_map, &non_frame_roots, true);
+            // (the entry frame's function is always frame-only: count the others)
+            let frame_only = pre.frames.iter().skip(1).any(|f| {
+                (pre_map.contains_key(&f.function) && !reach_nf.contains(&f.function))
+                    || f.closure.map(|c| !reach_nf.contains(&c)).unwrap_or(false)
+            });
+            if frame_only {
+                self.only_frame_rooted += 1;
+            }
+            self.stale_register_ptrs += pre.vmst.stale_register_ptrs as u64;
+            self.cache_ptrs += pre.vmst.globals_cache.len() as u64;
             let reach_all = closure_from(&pre_map, &audit_roots, true);
             let reach_fn = closure_from(&pre_map, &fn_roots, true);
             let reach_direct = closure_from(&pre_map, &fn_roots, false);
@@ -538,7 +566,8 @@ mod imp {
             }
             // sampled dump for the model tie
             let take = self.dumps.len() < self.max_dumps
-                && (self.collections <= 2 || self.rng.as_mut().map(|r| r.chance(1, 6)).unwrap_or(false));
+                && (self.collections <= 2 || (frame_only && self.only_frame_rooted <= 2)
+                    || self.rng.as_mut().map(|r| r.chance(1, 6)).unwrap_or(false));
             if take {
                 let mut slots = Vec::with_capacity(pre.nslots);
                 for i in 0..pre.nslots {
@@ -547,10 +576,23 @@ mod imp {
                         None => slots.push("None".to_string()),
                     }
                 }
-                let q = format!("QCollect (mkHeap [{}] {}) {}", slots.join(";"),
-                                nl(pre.free.iter().rev().copied()), nl(pre.roots.iter().copied()));
-                let obs = format!("[{};{};{}]", nl(post.iter().map(|o| o.index)), nl(free2.iter().rev().copied()),
-                                  nl(reach_model.iter().copied()));
+                let ol = |xs: &[Option<usize>]| -> String {
+                    let v: Vec<String> = xs.iter().map(|x| match x { Some(p) => format!("Some {}", p), None => "None".into() }).collect();
+                    format!("[{}]", v.join(";"))
+                };
+                let st = &pre.vmst;
+                let frames: Vec<String> = st.frames.iter().map(|(b, n, f, c)| format!("mkFrame {} {} {} {}", b, n, f,
+                    match c { Some(c) => format!("(Some {})", c), None => "None".into() })).collect();
+                let vmterm = format!("(mkVm {} [{}] {} {} {} {} {})", ol(&st.registers), frames.join(";"),
+                                     nl(st.globals.iter().copied()), ol(&st.globals_by_index),
+                                     nl(st.open_upvalues.iter().copied()), nl(st.current_upvalues.iter().copied()),
+                                     nl(st.globals_cache.iter().copied()));
+                let q = format!("QVmCollect {} (mkHeap [{}] {})", vmterm, slots.join(";"), nl(pre.free.iter().rev().copied()));
+                let cache_after = vm.verif_vm_state().globals_cache;
+                let mut free_sorted = free2.clone();
+                free_sorted.sort();
+                let obs = format!("[{};{};{};{};{}]", nl(post.iter().map(|o| o.index)), nl(free_sorted.iter().copied()),
+                                  nl(reach_model.iter().copied()), nl(pre.roots.iter().copied()), nl(cache_after.iter().copied()));
                 self.dumps.push((self.collections, pre.site, q, obs));
             }
         }
@@ -603,8 +645,9 @@ mod imp {
                     verif::gc_audit_remove();
                     let rec = rec.borrow();
                     let s = format!("{}:{}", gc.0, gc.1);
-                    println!("R\t{}\t{}\t{}\t{}\t{}\t{}\t{}\t{}\t{}\t{}\t{}", idx, s, r.class, esc(&r.output), esc(&r.value),
-                             esc(&r.detail), rec.collections, rec.nested_losses, rec.pending_seen, rec.exposure, rec.running_closure_losses);
+                    println!("R\t{}\t{}\t{}\t{}\t{}\t{}\t{}\t{}\t{}\t{}\t{}\t{}\t{}\t{}", idx, s, r.class, esc(&r.output), esc(&r.value),
+                             esc(&r.detail), rec.collections, rec.nested_losses, rec.pending_seen, rec.exposure, rec.running_closure_losses,
+                             rec.only_frame_rooted, rec.stale_register_ptrs, rec.cache_ptrs);
                     for (c, sig, d) in &rec.problems {
                         println!("X\t{}\t{}\t{}\t{}\t{}", idx, s, c, sig, esc(d));
                     }
